@@ -18,7 +18,7 @@ def run(ctx):
         # code -> spec: long random histories over 12 keys sharing prefixes
         keyseq = sorted([[1], [1, 1], [1, 1, 1], [1, 2], [1, 2, 1], [2], [2, 1], [2, 2], [2, 2, 2], [3], [3, 1], [3, 3]])
         ntr, nst = (60, 300) if ctx.thorough else (12, 150)
-        tp = kv.trace_run(ctx, binary, keyseq, [], False, ["x", "y", "z"], "kv", ntr, nst, "c04")
+        tp = kv.trace_run(ctx, binary, keyseq, [], False, kv.TRACE_VALS, "kv", ntr, nst, "c04")
         if tp:
             v = kv.trace_check(ctx, tp, "C04")
             nev = v["total"]
